@@ -357,6 +357,17 @@ def run(ctx, only_scripts=None):
         rs_viol, rs_stats = real_sinks(ctx, tier)
         violations += rs_viol
         stats["real_recorders_on_all_sinks"] = rs_stats
+        # the same with a really full disk: the output directory on a 2 MB tmpfs that is filled up and freed again
+        mnt = mount_small_fs(ctx, "smallfs")
+        if mnt:
+            try:
+                fs_viol, fs_stats = real_sinks(ctx, tier, smallfs=mnt)
+            finally:
+                umount(mnt)
+            violations += [v for v in fs_viol if v["key"] not in {x["key"] for x in violations}]
+            stats["real_recorders_on_a_full_disk"] = fs_stats
+        else:
+            ctx.notes.append("no small file system could be mounted: full-disk runs skipped")
         # the three sinks as handleConn wires them (separate recorder objects): a test recording requested in the
         # middle of a motion recording, with the continuous recorder on or off, through the unmodified runMain
         import fam_e2e
@@ -561,7 +572,21 @@ def config_lengths(ctx, tier):
     return out, dict(configs=len(cfgs), min_equals_max=sum(1 for (a, b, p) in combos if a == b))
 
 
-def real_sinks(ctx, tier, prop="C12"):
+def mount_small_fs(ctx, name, size="2m"):
+    """a tmpfs of a few MB under the scratch directory; returns its path or None when mounting is not permitted here"""
+    import subprocess
+    mnt = ctx.path(name, "x")[:-2]
+    os.makedirs(mnt, exist_ok=True)
+    r = subprocess.run(["mount", "-t", "tmpfs", "-o", "size=" + size, "tmpfs", mnt], capture_output=True, text=True)
+    return mnt if r.returncode == 0 else None
+
+
+def umount(mnt):
+    import subprocess
+    subprocess.run(["umount", mnt], capture_output=True)
+
+
+def real_sinks(ctx, tier, prop="C12", smallfs=None):
     """C12 with REAL CPTVFileRecorders on the motion, continuous and test sinks; start / rename / pruning failures are
     provoked through the file system (the output directory is renamed away and back).  Ends with a long quiet stretch
     and one isolated motion frame whose recording must be exactly what C02/C03 demand."""
@@ -575,7 +600,11 @@ def real_sinks(ctx, tier, prop="C12"):
         steps = []
         for k in range(rng.randint(30, 90)):
             r = rng.random()
-            if prop == "C13" and r < 0.05:
+            if smallfs and r < 0.07:
+                steps.append(dict(a="fillfs"))       # the file system is full from here (ENOSPC on whatever is written next)
+            elif smallfs and r < 0.14:
+                steps.append(dict(a="freefs"))
+            elif prop == "C13" and r < 0.05:
                 # a bad frame while storage fails (the files in progress cannot be finished), then ordinary frames
                 steps += [dict(a="breakdir"), dict(a="bad"), dict(a="frame", motion=rng.random() < 0.5)]
                 if rng.random() < 0.5:
@@ -593,6 +622,8 @@ def real_sinks(ctx, tier, prop="C12"):
             else:
                 steps.append(dict(a="frame", motion=rng.random() < 0.5))
         steps.append(dict(a="fixdir"))
+        if smallfs:
+            steps.append(dict(a="freefs"))
         N, MinF, MaxF = preview * fps + trig, mn * fps, mx * fps
         quiet = N + MaxF + 25          # everything that was open is over, the test recording (21 frames) too
         steps += [dict(a="frame", motion=False) for _ in range(quiet)]
@@ -603,21 +634,26 @@ def real_sinks(ctx, tier, prop="C12"):
         scripts.append(dict(Fps=fps, Preview=preview, Trig=trig, Min=mn, Max=mx, const=rng.random() < (0.85 if prop == "C13" else 0.6),
                             steps=steps, blip=blip))
     binp = ctx.go_test_build("./cmd/thermal-recorder", "tr.test")
-    inp, outp = ctx.path("run", "realsinks.json"), ctx.path("run", "realsinks.ndjson")
+    tagname = "realsinks_small" if smallfs else "realsinks"
+    inp, outp = ctx.path("run", tagname + ".json"), ctx.path("run", tagname + ".ndjson")
     json.dump(dict(scripts=scripts), open(inp, "w"))
-    r = subprocess.run([binp, "-test.run", "^TestVerifRealSinks$"], env=dict(os.environ, VERIF_SCRIPT=inp, VERIF_OUT=outp),
+    r = subprocess.run([binp, "-test.run", "^TestVerifRealSinks$"],
+                       env=dict(os.environ, VERIF_SCRIPT=inp, VERIF_OUT=outp, **(dict(VERIF_SMALLFS=smallfs) if smallfs else {})),
                        capture_output=True, text=True, timeout=1800)
     if r.returncode != 0 or not os.path.exists(outp):
         raise vlib.Infra("real-sinks driver failed: " + (r.stdout + r.stderr)[-2500:])
     events = vlib.read_ndjson(outp)
     for e in events:
+        if smallfs:
+            # files published although the disk was full are C10's business (known finding F-C10-3), not judged here
+            e["undecodable_on_full_disk"], e["undecodable"] = e["undecodable"], 0
         sc = scripts[e["script"]]
         # with trigger-frames = 2 the run of two motion frames: the trigger frame is the second one; last motion = trigger
         e["blip"] = sc["blip"]
         e["last"] = e.get("last") or []
-    tp = ctx.path("run", "realsinks.trace.ndjson")
+    tp = ctx.path("run", tagname + ".trace.ndjson")
     vlib.write_ndjson(tp, events)
-    viol, nev = judge(ctx, tp, "realsinksmon")
+    viol, nev = judge(ctx, tp, tagname + "mon")
     out, seen = [], set()
     for (line, tags) in viol:
         for tg in tags:
@@ -629,7 +665,8 @@ def real_sinks(ctx, tier, prop="C12"):
             out.append(dict(key=tg, replay=rp, what=json.dumps(e)[:300]))
     out = [v for v in out if v["key"].startswith(prop + ":")]
     return out, dict(scripts=len(scripts), panics=sum(1 for e in events if e["panic"]),
-                     final_recordings_checked=sum(1 for e in events if e["last"]))
+                     final_recordings_checked=sum(1 for e in events if e["last"]),
+                     undecodable_files_published_on_a_full_disk=sum(e.get("undecodable_on_full_disk", 0) for e in events))
 
 
 def raw_frames(ctx, tier, prop="C13"):
